@@ -83,9 +83,12 @@ func (e *Engine) registerIntrinsics(pkgPath string) {
 			}
 			return nil
 		}
-		r, _ := x.check(c)
-		if r == Unsat {
-			panic(&pathAbort{kind: "infeasible"})
+		// while a decision prefix is being replayed the assumption was already
+		// found satisfiable by the path this one was forked from
+		if x.pos >= len(x.decisions) || x.local != nil {
+			if r, _ := x.check(c); r == Unsat {
+				panic(&pathAbort{kind: "infeasible"})
+			}
 		}
 		x.pc = append(x.pc, c)
 		return nil
@@ -232,7 +235,7 @@ func (x *Exec) assertCond(id string, c *Term, forcedRegion string) {
 	}
 	if forcedRegion != "" {
 		// panic sites: the region is the site itself
-		r, m := x.check(neg)
+		r, m := x.checkM(neg)
 		if r == Sat {
 			v := &Violation{ID: id, Model: m, Decision: append([]int8{}, x.decisions[:x.pos]...), Site: forcedRegion}
 			if x.E.Known[forcedRegion] {
@@ -245,7 +248,7 @@ func (x *Exec) assertCond(id string, c *Term, forcedRegion string) {
 		return
 	}
 	outside := append([]*Term{neg}, mapNot(knownConds)...)
-	r, m := x.check(outside...)
+	r, m := x.checkM(outside...)
 	switch r {
 	case Sat:
 		x.violations = append(x.violations, &Violation{ID: id, Model: m, Decision: append([]int8{}, x.decisions[:x.pos]...)})
@@ -253,7 +256,7 @@ func (x *Exec) assertCond(id string, c *Term, forcedRegion string) {
 		x.inconclusive = append(x.inconclusive, "assertion "+id+": solver unknown")
 	}
 	for k, kc := range knownConds {
-		r2, m2 := x.check(neg, kc)
+		r2, m2 := x.checkM(neg, kc)
 		if r2 == Sat {
 			x.violations = append(x.violations, &Violation{ID: id, Region: knownIDs[k], Model: m2, Decision: append([]int8{}, x.decisions[:x.pos]...)})
 		}
